@@ -168,6 +168,20 @@ func Create(st *account.AccountDB, ctx vm.Context, caller common.Address, initco
 	return res
 }
 
+// StaticCall runs vm.NewEVMWithNFT(ctx, st, st).StaticCall(caller -> addr): the top-level frame itself is
+// read-only, so a write attempt surfaces as the error of this call (added for C11).
+func StaticCall(st *account.AccountDB, ctx vm.Context, caller, addr common.Address, input []byte, gas uint64) (res Result) {
+	defer func() {
+		if p := recover(); p != nil {
+			res.Panic = p
+			res.Stack = string(debug.Stack())
+		}
+	}()
+	evm := vm.NewEVMWithNFT(ctx, st, st)
+	res.Ret, res.GasLeft, res.Logs, res.Err = evm.StaticCall(vm.AccountRef(caller), addr, input, gas)
+	return res
+}
+
 // RunCode is the one-shot convenience: fresh state, code installed at Contract, called by Origin
 // with zero value.
 func RunCode(code, input []byte, gas uint64) Result {
@@ -245,4 +259,32 @@ func Kind(err error) string {
 		return KindBalance
 	}
 	return KindOther
+}
+
+// ---- additions for C12 (state that can be committed and reopened cold) ----
+
+// NewStateDB is NewState that also returns the backing account database, so that the state can be
+// committed and reopened at its root (the way a block executor opens the parent state).
+func NewStateDB() (*account.AccountDB, account.AccountDatabase) {
+	mem, err := db.NewMemDatabase()
+	if err != nil {
+		panic(err)
+	}
+	adb := account.NewDatabase(mem)
+	st, err := account.NewAccountDB(common.Hash{}, adb)
+	if err != nil {
+		panic(err)
+	}
+	return st, adb
+}
+
+// Reopen commits st and returns a fresh AccountDB opened at the committed root over the same
+// database: no cached account objects, empty journal, empty per-transaction scratch state.
+func Reopen(st *account.AccountDB, adb account.AccountDatabase) (*account.AccountDB, common.Hash, error) {
+	root, err := st.Commit(true)
+	if err != nil {
+		return nil, root, err
+	}
+	st2, err := account.NewAccountDB(root, adb)
+	return st2, root, err
 }
